@@ -65,4 +65,26 @@ example : ∃ pcs cs', exportCells demoTbl [demoA, demoB] = .ok pcs ∧ importCe
     exact ⟨pcs, cs', rfl, h1, h2⟩
   | err => exact absurd h (by decide)
 
+/-! ### the converse direction and abstract purpose numbers — a NEGATIVE result (known finding
+    `c14-abstract-purpose-*`): the raw abstract keeps the layer number of a port / blockage group only,
+    so two messages that differ in the purpose number alone import to the same raw abstract, and no
+    exporter can give both back.  Witnesses = the pinned cases replayed on the real code by the run. -/
+def absP101 : PAbs := ⟨[99, 48], some ⟨[], [⟨0, 0⟩, ⟨10, 0⟩, ⟨10, 10⟩, ⟨0, 10⟩]⟩, [], [⟨some (2, 101), [⟨[], some ⟨1, 1⟩, 2, 2⟩], [], []⟩]⟩
+def absP100 : PAbs := ⟨[99, 48], some ⟨[], [⟨0, 0⟩, ⟨10, 0⟩, ⟨10, 10⟩, ⟨0, 10⟩]⟩, [], [⟨some (2, 100), [⟨[], some ⟨1, 1⟩, 2, 2⟩], [], []⟩]⟩
+theorem c14_converse_fails_on_second_purpose_number :
+    absP101 ≠ absP100 ∧ importAbs absP101 = importAbs absP100 ∧ (∃ a, importAbs absP101 = .ok a) := by
+  refine ⟨by decide, by decide, ?_⟩
+  cases h : importAbs absP101 with
+  | ok a => exact ⟨a, rfl⟩
+  | err => exact absurd h (by decide)
+/-- hence no re-export, whatever layer table it is given, returns both messages -/
+theorem c14_converse_no_exporter (tbl : LayerTbl) :
+    ¬ (∀ a r, importAbs a = .ok r → a = absP101 ∨ a = absP100 → exportAbs tbl r = .ok a) := by
+  intro h
+  obtain ⟨hne, heq, r, hr⟩ := c14_converse_fails_on_second_purpose_number
+  have h1 := h absP101 r hr (Or.inl rfl)
+  have h2 := h absP100 r (heq ▸ hr) (Or.inr rfl)
+  rw [h1] at h2
+  exact hne (Out.ok.inj h2)
+
 end L21.RawProto
